@@ -1036,11 +1036,38 @@ def gen_functions(seed, count, with_corpus=True):
     return funcs
 
 
-def gen_vectors(f, rng, k):
+def gen_gconfs(rng, n=8):
+    """a small pool of settings of the package-level variables (keeps the generated main small)"""
+    gpools = [INPUTS[t] for (_, t) in GLOBALS]
+    confs = [[p[0] for p in gpools], [p[1 % len(p)] for p in gpools]]
+    while len(confs) < n:
+        c = [rng.choice(p) for p in gpools]
+        if c not in confs:
+            confs.append(c)
+    return confs
+
+
+def gen_vectors(f, rng, k, gconfs=None):
     """input vectors: list of (global settings, [arg expressions])"""
     vecs = []
     pools = [INPUTS[t] for (_, t) in f.params]
     gpools = [INPUTS[t] for (_, t) in GLOBALS]
+    if gconfs is not None:
+        for fv in getattr(f, "fixed_vectors", []):
+            if isinstance(fv, dict):
+                vecs.append((list(fv["globals"]), list(fv["args"])))
+            else:
+                vecs.append((gconfs[0], list(fv)))
+        for j in range(k):
+            if j == 0:
+                v = (gconfs[0], [p[0] for p in pools])
+            elif j == 1:
+                v = (gconfs[1], [p[1 % len(p)] for p in pools])
+            else:
+                v = (rng.choice(gconfs), [rng.choice(p) for p in pools])
+            if v not in vecs:
+                vecs.append(v)
+        return vecs
     for fv in getattr(f, "fixed_vectors", []):
         if isinstance(fv, dict):
             vecs.append((list(fv["globals"]), list(fv["args"])))
@@ -1103,8 +1130,9 @@ class Module:
         self.cmp_by_name = {}
         self.vectors = {}    # qname -> vectors
         rng = vlib.SplitMix(seed).fork("c15-vec")
+        self.gconfs = gen_gconfs(rng.fork("gconfs"))
         for f in funcs:
-            self.vectors[f.qname] = gen_vectors(f, rng.fork(f.qname), nvec)
+            self.vectors[f.qname] = gen_vectors(f, rng.fork(f.qname), nvec, self.gconfs)
         self.build()
 
     def build(self):
@@ -1134,6 +1162,8 @@ class Module:
         self.files["b/cmp.go"] = "\n".join(cb) + "\n"
         # main
         m = [MAIN_PRELUDE]
+        for i, gl in enumerate(self.gconfs):
+            m.append("func gc%d() { %s}" % (i, "".join("a.%s = %s; " % (g, e) for (g, _), e in zip(GLOBALS, gl))))
         runall = ["func runAll() {"]
         for f in self.funcs:
             vecs = self.vectors[f.qname]
@@ -1157,6 +1187,8 @@ class Module:
         self.files["main/main.go"] = "\n".join(m) + "\n" + "\n".join(runall) + "\n"
 
     def set_globals(self, gl):
+        if gl in self.gconfs:
+            return "gc%d(); " % self.gconfs.index(gl)
         return "".join("a.%s = %s; " % (g, e) for (g, _), e in zip(GLOBALS, gl))
 
     def call_body(self, f, gl, args):
@@ -1201,14 +1233,39 @@ def run_module(ctx, mod, root, probe, staticcheck, tag):
     Returns dict with nilness facts, SA4023 verdicts, observations, IR dump lines."""
     mod.write(root)
     env = vlib.go_env()
-    # 1. real analysis through the real runner
+    from concurrent.futures import ThreadPoolExecutor
     outp = os.path.join(root, "probe.out")
     if os.path.exists(outp):
         os.unlink(outp)
-    cache = os.path.join(root, "sc-cache")
-    e = dict(env)
-    e.update({"C15_OUT": outp, "STATICCHECK_CACHE": cache})
-    rc, so, se = vlib.run([probe, "-checks", "VN1500,SA4023", "-f", "json", "./a", "./b"], cwd=root, env=e, timeout=1500)
+    prog = os.path.join(root, "prog")
+
+    def do_probe():
+        # 1. real analysis through the real runner
+        e = dict(env)
+        e.update({"C15_OUT": outp, "STATICCHECK_CACHE": os.path.join(root, "sc-cache")})
+        return vlib.run([probe, "-checks", "VN1500,SA4023", "-f", "json", "./a", "./b"], cwd=root, env=e, timeout=1500)
+
+    def do_sc():
+        # 2. SA4023 from the real staticcheck binary (quick tier: only for the first module;
+        #    the probe runs the same real analyzer through the same lintcmd runner)
+        if staticcheck is None:
+            return 0, None, ""
+        e2 = dict(env)
+        e2["STATICCHECK_CACHE"] = os.path.join(root, "sc-cache2")
+        return vlib.run([staticcheck, "-checks", "SA4023", "-f", "json", "./a", "./b"], cwd=root, env=e2, timeout=1500)
+
+    def do_build():
+        # 3. the same source, compiled
+        # (the generated driver package is compiled without optimisation to save time;
+        #  the packages under test, a and b, are compiled normally)
+        return vlib.run([vlib.GO, "build", "-gcflags=example.com/m/main=-N -l", "-o", prog, "./main"],
+                        cwd=root, env=env, timeout=1500)
+
+    with ThreadPoolExecutor(max_workers=3) as ex:
+        fp, fs, fb = ex.submit(do_probe), ex.submit(do_sc), ex.submit(do_build)
+        rc, so, se = fp.result()
+        rc2, so2, se2 = fs.result()
+        rc3, so3, se3 = fb.result()
     if rc not in (0, 1) or not os.path.exists(outp):
         raise vlib.HarnessError("c15probe failed (%s) rc=%d: %s %s" % (tag, rc, so[-1500:], se[-1500:]))
     probe_sa = parse_sa(so, root)
@@ -1220,20 +1277,13 @@ def run_module(ctx, mod, root, probe, staticcheck, tag):
             facts[(viewer.rsplit("/", 1)[-1], fpkg.rsplit("/", 1)[-1] + "." + key, int(idx))] = (int(inner), int(outer))
         elif line.startswith("P "):
             dumps.append(line)
-    # 2. SA4023 from the real staticcheck binary
-    e2 = dict(env)
-    e2["STATICCHECK_CACHE"] = os.path.join(root, "sc-cache2")
-    rc, so, se = vlib.run([staticcheck, "-checks", "SA4023", "-f", "json", "./a", "./b"], cwd=root, env=e2, timeout=1500)
-    if rc not in (0, 1):
-        raise vlib.HarnessError("staticcheck failed (%s) rc=%d: %s %s" % (tag, rc, so[-1500:], se[-1500:]))
-    sa = parse_sa(so, root)
+    if rc2 not in (0, 1):
+        raise vlib.HarnessError("staticcheck failed (%s) rc=%d: %s %s" % (tag, rc2, so2[-1500:], se2[-1500:]))
+    sa = parse_sa(so2, root) if so2 is not None else probe_sa
     if sa is None or probe_sa is None:
-        raise vlib.HarnessError("staticcheck/c15probe reported a non-SA4023 problem (%s): %s" % (tag, so[-1500:]))
-    # 3. the same source, compiled and executed
-    prog = os.path.join(root, "prog")
-    rc, so, se = vlib.run([vlib.GO, "build", "-o", prog, "./main"], cwd=root, env=env, timeout=1500)
-    if rc != 0:
-        raise vlib.HarnessError("generated module does not compile (%s) (generator bug):\n%s" % (tag, (so + se)[-3000:]))
+        raise vlib.HarnessError("staticcheck/c15probe reported a non-SA4023 problem (%s): %s" % (tag, (so + (so2 or ""))[-1500:]))
+    if rc3 != 0:
+        raise vlib.HarnessError("generated module does not compile (%s) (generator bug):\n%s" % (tag, (so3 + se3)[-3000:]))
     skip = []
     obs = None
     for attempt in range(8):
@@ -1367,6 +1417,7 @@ THEOREMS = [
     "Verif.C15.edge_sound",
     "Verif.C15.path_sound",
     "Verif.C15.result_sound",
+    "Verif.C15.describes_mono",
     "Verif.C15.result_sound_never",
     "Verif.C15.result_sound_always",
     "Verif.C15.sa4023_sound",
@@ -1391,8 +1442,8 @@ def func_from_record(e):
 def plan(ctx):
     """[(module tag, generator seed, number of generated functions, with corpus, vectors per function)]"""
     if ctx.quick:
-        return [("m0", ctx.seed * 1000 + 0, 130, True, 12), ("m1", ctx.seed * 1000 + 1, 150, False, 12),
-                ("m2", ctx.seed * 1000 + 2, 150, False, 12)]
+        return [("m0", ctx.seed * 1000 + 0, 90, True, 10), ("m1", ctx.seed * 1000 + 1, 110, False, 10),
+                ("m2", ctx.seed * 1000 + 2, 110, False, 10)]
     return [("m%d" % k, ctx.seed * 1000 + k, 260, k == 0, 16) for k in range(14)]
 
 
@@ -1403,7 +1454,8 @@ def run_plan(ctx, probe, staticcheck, items, workers):
         tag, mod = item
         root = ctx.path("mods", tag, "go.mod")
         root = os.path.dirname(root)
-        return tag, mod, run_module(ctx, mod, root, probe, staticcheck, tag)
+        sc = staticcheck if (not ctx.quick or tag in ("m0", "replay")) else None
+        return tag, mod, run_module(ctx, mod, root, probe, sc, tag)
 
     with ThreadPoolExecutor(max_workers=workers) as ex:
         return list(ex.map(one, items))
@@ -1454,6 +1506,34 @@ def model_tie(ctx, mod, res, tag):
                 diffs.append({"module": tag, "func": pkg + "." + name, "real": kv["real"], "model": kv["model"],
                               "cert": kv.get("cert"), "encoding": "per result: <Inner><Outer>, 1=NeverNil 2=AlwaysNil 3=MaybeNilGlobal 4=MaybeNil"})
     return stats, diffs
+
+
+def sa_tie(ctx, mod, res, tag):
+    """SA4023 may report `f() == nil` only when Result.Nilness(f, i).Outer is NeverNil (the model's
+    `sa4023Flags`, for which `sa4023_sound` is proved); IsTrivial / IsInTest only suppress reports."""
+    lines, meta = [], []
+    for (fn, line), (cname, fq, idx, op) in sorted(mod.cmps.items()):
+        viewer = fn.split("/")[0]
+        cls = res["facts"].get((viewer, fq, idx))
+        if cls is None:
+            continue
+        t = mod.by_q[fq].results[idx]
+        lines.append("S %d%d %d%d" % (TYPES[t][1], TYPES[t][2], cls[0], cls[1]))
+        meta.append((fn, line, cname, fq, idx, cls))
+    if not lines:
+        return 0, 0, []
+    outs = vlib.run_model(ctx, "C15", lines)
+    diffs, nflag = [], 0
+    for m, o in zip(meta, outs):
+        if o not in ("0", "1"):
+            raise vlib.HarnessError("c15driver rejected an S line")
+        flagged = (m[0], m[1]) in res["sa"] or (m[0], m[1]) in res["probe_sa"]
+        nflag += flagged
+        if flagged and o != "1":
+            diffs.append({"module": tag, "func": m[3], "result": m[4], "cmp": m[2], "file": m[0], "line": m[1],
+                          "real": "SA4023 reports the comparison", "model": "Result.Nilness = %d%d is not Outer=NeverNil" % m[5],
+                          "cert": "-", "kind": "sa4023"})
+    return len(lines), nflag, diffs
 
 
 def viol_class(v):
@@ -1531,9 +1611,20 @@ def targeted_search(ctx, probe, staticcheck, mods, diffs):
 
 
 def run(ctx):
-    lean_ok, lean_broke = vlib.std_lean_phase(ctx, MODULES, THEOREMS)
-    probe = vlib.build_harness(ctx, "c15probe")
-    staticcheck = vlib.build_repo_cmd(ctx, "./cmd/staticcheck")
+    import time
+    from concurrent.futures import ThreadPoolExecutor
+    phase = {}
+    t0 = time.time()
+    # the Lean build/audit and the Go builds are independent: run them side by side
+    with ThreadPoolExecutor(max_workers=3) as ex:
+        f_lean = ex.submit(vlib.std_lean_phase, ctx, MODULES, THEOREMS)
+        f_probe = ex.submit(vlib.build_harness, ctx, "c15probe")
+        f_sc = ex.submit(vlib.build_repo_cmd, ctx, "./cmd/staticcheck")
+        probe = f_probe.result()
+        staticcheck = f_sc.result()
+        phase["go_builds"] = round(time.time() - t0, 1)
+        lean_ok, lean_broke = f_lean.result()
+    phase["lean_and_builds"] = round(time.time() - t0, 1)
     known = vlib.load_known_findings("C15")
 
     items = []
@@ -1546,6 +1637,7 @@ def run(ctx):
             funcs = gen_functions(gseed, count, with_corpus=with_corpus)
             items.append((tag, Module(funcs, gseed, nvec)))
     results = run_plan(ctx, probe, staticcheck, items, 3 if ctx.quick else 5)
+    phase["modules_analysed_and_executed"] = round(time.time() - t0, 1)
 
     mods = {}
     seen_classes = {}
@@ -1559,6 +1651,7 @@ def run(ctx):
     nontrivial = set()
     samples = []
     nfuncs = 0
+    irk = {}
     for tag, mod, res in results:
         mods[tag] = mod
         viols, st = oracle(mod, res)
@@ -1595,6 +1688,11 @@ def run(ctx):
                     samples.append({"function": f.text, "classification": {str(i): [NILNESS[c] for c in res["facts"][(f.pkg, f.qname, i)]]
                                                                          for i in range(len(f.results)) if (f.pkg, f.qname, i) in res["facts"]},
                                     "observed_first_normal_return": runs[normal[0]], "vector": mod.vectors[f.qname][normal[0]][1]})
+        for dl in res["dumps"]:
+            for rec in dl.split(" ; "):
+                t = rec.split(" ")
+                if t[0] == "I" and len(t) > 2:
+                    irk[t[2]] = irk.get(t[2], 0) + 1
         if lean_ok or os.path.exists(vlib.driver_path("C15")):
             try:
                 ts, td = model_tie(ctx, mod, res, tag)
@@ -1603,6 +1701,10 @@ def run(ctx):
                     raise
                 ts, td = None, []
             if ts:
+                n_sa, n_flag, sd = sa_tie(ctx, mod, res, tag)
+                tie["sa4023_comparisons"] = tie.get("sa4023_comparisons", 0) + n_sa
+                tie["sa4023_reported"] = tie.get("sa4023_reported", 0) + n_flag
+                diffs += sd
                 for k, v in ts.items():
                     if isinstance(v, dict):
                         for kk, vv in v.items():
@@ -1611,7 +1713,9 @@ def run(ctx):
                         tie[k] += v
                 diffs += td
 
+    phase["oracle_and_model_tie"] = round(time.time() - t0, 1)
     ctx.coverage.update({
+        "phase_seconds_since_start": phase,
         "evaluations": tot.get("calls", 0),
         "distinct_nontrivial": len(nontrivial),
         "rule": "seeded generator of type-correct Go functions with pointer-like results in two packages (b imports a) + fixed corpus; "
@@ -1623,6 +1727,7 @@ def run(ctx):
         "disagreements_checked": len(diffs),
         "oracle": tot,
         "generator_features": dict(sorted(feats.items())),
+        "ir_instruction_kinds_seen_by_the_model": dict(sorted(irk.items())),
         "model_tie": tie,
         "sa4023_probe_vs_binary_mismatches": len(sa_mismatch),
         "cross_package_fact_mismatches": len(cross_pkg_mismatch),
